@@ -47,4 +47,9 @@ CHECKS = {
         "note": "Trusted: z3 (choices only; all data is realised), asyncio on the virtual-time loop, refs/ashref.py. Known finding (open): ERROR frame with code 0x0B completes the handshake. Bounds: at most two consecutive reset requests; loss at two instants.",
         "technique": SYMX,
     },
+    "C06": {
+        "text": "Real ProtocolHandler.command/__call__ (v4, v5, v8, v13, v14 header families) with the real EZSP.frame_received/handle_callback on a virtual-time loop; gateway outcome and an EZSP-frame-level NCP script are solver-decided: per request {reply, late reply, never, duplicate, callback before/after, reply under a foreign sequence number, link failure}, the priority class of each of 2-4 concurrent callers, the start sequence number around the modulo-256 wrap, a cancellation point. Every feasible combination is one path; asserted per path: return value = payload of the reply carrying the caller's own sequence number at the reply instant, TimeoutError exactly at +10 s, nothing else completes a call, each unsolicited callback frame reaches every registered callback once, no request frame while another awaits its response, start order by class then arrival, sequence numbers +1 mod 256, semaphore free afterwards (probe command).",
+        "note": "Trusted: z3 (choices), asyncio on the virtual-time loop, zigpy's PriorityDynamicBoundedSemaphore, refs/ezspref.py frame builder. Assumption: callback frames never carry a pending sequence number. Bounds: 2-4 callers, three representative commands, sequence starts {0,1,253,254,255}.",
+        "technique": SYMX,
+    },
 }
